@@ -355,7 +355,7 @@ Proof.
     assert (W : who w = None) by (unfold who; now rewrite E).
     rewrite W. destruct (apply_op o (cur_ctx w)) as [a|]; cbn [fst].
     + apply inv_emit_neutral; auto; [| now cbn].
-      apply (inv_same_trace g w); auto. unfold set_cur_ctx. rewrite E. cbn. rewrite E. apply I.
+      unfold set_cur_ctx. rewrite E. apply (inv_same_trace g w); auto. destruct I as [_ R]. rewrite E in R. exact R.
     + apply inv_emit_neutral; auto; now cbn.
   - assert (W : who w = Some t) by (unfold who; now rewrite E).
     rewrite W. destruct (Nat.eq_dec t g) as [->|N].
@@ -367,18 +367,25 @@ Proof.
       * assert (A' : cur_ctx (set_cur_ctx a w) = a).
         { unfold set_cur_ctx, cur_ctx. rewrite E. cbn [set_ctx upd_gen w_stack]. rewrite E.
           unfold set_ctx. rewrite get_upd_eq, G. reflexivity. }
-        rewrite A'. split.
+        rewrite A'.
+        assert (T : w_trace (set_cur_ctx a w) = w_trace w) by (unfold set_cur_ctx; rewrite E; reflexivity).
+        assert (Hh : hist (set_cur_ctx a w) = hist w) by (unfold hist; now rewrite T).
+        assert (Hf : fin g (set_cur_ctx a w) = fin g w) by (unfold fin; now rewrite Hh).
+        assert (Gs : get g (set_cur_ctx a w) = Some (mkgen (g_body x) (Some a) (g_w x) (g_i x))).
+        { unfold set_cur_ctx. rewrite E. unfold set_ctx. rewrite get_upd_eq, G. reflexivity. }
+        assert (Ss : w_stack (set_cur_ctx a w) = g :: st) by (unfold set_cur_ctx; rewrite E; exact E).
+        split.
+        -- apply chain_emit; [rewrite Hh; auto|]. rewrite Hf. cbn. intros _. split; [apply R|].
+           unfold apply_total. rewrite A. auto.
+        -- rewrite fin_emit, Hf. cbn [c_next]. rewrite Nat.eqb_refl.
+           change (get g (emit (EOp (Some g) o true c a) (set_cur_ctx a w))) with (get g (set_cur_ctx a w)).
+           rewrite Gs. cbn. split; [reflexivity | apply R].
+      * split.
         -- apply chain_emit; auto. cbn. intros _. split; [apply R|].
            unfold apply_total. rewrite A. auto.
         -- rewrite fin_emit. cbn [c_next]. rewrite Nat.eqb_refl.
-           unfold set_cur_ctx. rewrite E. unfold set_ctx, emit, get. cbn.
-           fold (get g w). rewrite nth_error_upd_nth_eq. fold (get g w). rewrite G. cbn.
-           split; [reflexivity | apply R].
-      * rewrite B. split.
-        -- apply chain_emit; auto. cbn. intros _. split; [apply R|].
-           unfold apply_total. rewrite A. auto.
-        -- rewrite fin_emit. cbn [c_next]. rewrite Nat.eqb_refl. unfold emit, get. cbn.
-           fold (get g w). rewrite G. cbn. rewrite Cx. split; [reflexivity | apply R].
+           change (get g (emit (EOp (Some g) o false c c) w)) with (get g w).
+           rewrite G. cbn. rewrite Cx. split; [reflexivity | apply R].
     + (* another generator *)
       assert (NE : Nat.eqb t g = false) by (apply Nat.eqb_neq; auto).
       destruct (apply_op o (cur_ctx w)) as [a|]; cbn [fst].
@@ -436,4 +443,139 @@ Proof.
   - apply inv_set_w_susp; [apply inv_pop; auto | exact K].
   - apply inv_set_w_fin, inv_pop; auto.
   - apply inv_set_w_fin, inv_pop; auto.
+Qed.
+
+Lemma inv_ecall g a g' i c w :
+  Inv g w ->
+  (g' <> g \/ starts i = false \/ (forall x, get g w = Some x -> g_ctx x <> None \/ g_w x = WFinished)) ->
+  Inv g (emit (ECall a g' i c) w).
+Proof.
+  intros [Ch R] H. split; [apply chain_emit; cbn; auto|].
+  rewrite fin_emit. change (get g (emit (ECall a g' i c) w)) with (get g w).
+  change (w_stack (emit (ECall a g' i c) w)) with (w_stack w).
+  cbn [c_next].
+  destruct (Nat.eqb g' g) eqn:E1; cbn [andb]; auto.
+  destruct (starts i) eqn:E2; cbn [andb]; auto.
+  destruct (c_start (fin g w)) as [s0|] eqn:E3; cbn [is_some negb]; auto.
+  destruct H as [H|[H|H]].
+  - apply Nat.eqb_eq in E1. congruence.
+  - congruence.
+  - unfold rel in *. destruct (get g w) as [x|]; auto.
+    destruct (H x eq_refl) as [K|K].
+    + destruct (g_ctx x) as [c0|]; [|congruence].
+      destruct R as [R1 R2]. split; auto. unfold eff in *. cbn.
+      rewrite E3 in R1. destruct (c_own (fin g w)); auto.
+    + destruct (g_ctx x) as [c0|].
+      * destruct R as [R1 R2]. split; auto. unfold eff in *. cbn.
+        rewrite E3 in R1. destruct (c_own (fin g w)); auto.
+      * split; [apply R | auto].
+Qed.
+
+Lemma rel_ctx_some g w x :
+  Inv g w -> get g w = Some x -> g_w x = WSuspended -> exists c, g_ctx x = Some c.
+Proof.
+  intros [_ R] G Wx. unfold rel in R. rewrite G in R. destruct (g_ctx x) as [c|]; [eauto|].
+  destruct R as [_ [R|[R _]]]; congruence.
+Qed.
+Lemma rel_unstarted g w x :
+  Inv g w -> get g w = Some x -> g_w x = WUnstarted ->
+  g_ctx x = None /\ fin g w = cinit /\ ~ In g (w_stack w).
+Proof.
+  intros [_ R] G Wx. unfold rel in R. rewrite G in R. destruct (g_ctx x) as [c|].
+  - destruct R as [_ R]. congruence.
+  - destruct R as [A [B|[_ C]]]; [congruence | auto].
+Qed.
+
+Lemma inv_call_wrapper g legacy res : res_inv g res -> res_frame res ->
+  forall g' i w, ~ In g' (w_stack w) -> Inv g w ->
+  Inv g (fst (wrapper_resume legacy res g' i (emit (ECall (who w) g' i (cur_ctx w)) w))).
+Proof.
+  intros Hres Hfr g' i w Hg I.
+  set (w0 := emit (ECall (who w) g' i (cur_ctx w)) w).
+  unfold wrapper_resume. change (get g' w0) with (get g' w).
+  destruct (get g' w) as [x|] eqn:G.
+  2:{ cbn [fst]. apply inv_ecall; auto. destruct (Nat.eq_dec g' g) as [->|N]; auto.
+      right; right. intros y Gy. congruence. }
+  destruct (g_w x) eqn:Wx.
+  - (* not started *)
+    assert (NS : starts i = false -> Inv g w0) by (intros; apply inv_ecall; auto).
+    assert (St : starts i = true ->
+       Inv g (fst (tramp legacy res g' (BSend None)
+                (set_w g' WSuspended (set_ctx g' (Some (copy_ctx (cur_ctx w0))) w0))))).
+    { intros Hs. destruct (Nat.eq_dec g' g) as [->|N].
+      - destruct (rel_unstarted g w x I G Wx) as (Cx & Fc & Ns).
+        assert (G2 : get g (set_w g WSuspended (set_ctx g (Some (copy_ctx (cur_ctx w0))) w0))
+                     = Some (mkgen (g_body x) (Some (copy_ctx (cur_ctx w))) WSuspended (g_i x))).
+        { unfold set_w, set_ctx. rewrite !get_upd_eq. change (get g w0) with (get g w). rewrite G. reflexivity. }
+        apply inv_tramp; auto.
+        + intros _. eexists. eexists. split; [exact G2 | reflexivity].
+        + split.
+          * change (chain g cinit (hist w0)). apply chain_emit; [apply I | exact Logic.I].
+          * rewrite G2.
+            change (fin g (set_w g WSuspended (set_ctx g (Some (copy_ctx (cur_ctx w0))) w0))) with (fin g w0).
+            unfold w0. rewrite fin_emit, Fc. cbn [c_next]. rewrite Nat.eqb_refl, Hs. cbn.
+            split; [reflexivity | discriminate].
+      - apply inv_tramp; auto; [intros; congruence|].
+        apply inv_upd_other; auto. apply inv_upd_other; auto. apply inv_ecall; auto. }
+    destruct i as [|[v|]|e|]; cbn [fst].
+    + apply St. reflexivity.
+    + apply NS. reflexivity.
+    + apply St. reflexivity.
+    + apply inv_set_w_fin, NS. reflexivity.
+    + apply inv_set_w_fin, NS. reflexivity.
+  - (* suspended *)
+    assert (I0 : Inv g w0).
+    { apply inv_ecall; auto. destruct (Nat.eq_dec g' g) as [->|N]; auto. right; right.
+      intros y Gy. rewrite G in Gy. inversion Gy; subst y.
+      destruct (rel_ctx_some g w x I G Wx) as [c Cx]. left; congruence. }
+    assert (Tr : forall bi, Inv g (fst (tramp legacy res g' bi w0))).
+    { intros bi. apply inv_tramp; auto. intros ->.
+      destruct (rel_ctx_some g w x I G Wx) as [c Cx]. exists x, c. split; auto. }
+    destruct i as [|v|e|]; try apply Tr.
+    pose proof (Tr (BThrow GeneratorExit)) as T.
+    destruct (tramp legacy res g' (BThrow GeneratorExit) w0). exact T.
+  - (* finished *)
+    assert (I0 : Inv g w0).
+    { apply inv_ecall; auto. destruct (Nat.eq_dec g' g) as [->|N]; auto. right; right.
+      intros y Gy. rewrite G in Gy. inversion Gy; subst y. auto. }
+    destruct i; exact I0.
+Qed.
+
+Lemma inv_resume g legacy fuel : res_inv g (resume legacy fuel).
+Proof.
+  induction fuel as [|f IH]; intros g' i w I; cbn [resume]; auto.
+  set (w0 := emit (ECall (who w) g' i (cur_ctx w)) w).
+  destruct (mem g' (w_stack w0)) eqn:M.
+  - cbn [fst]. apply inv_emit_neutral; [| now cbn | now cbn].
+    apply inv_ecall; auto. destruct (Nat.eq_dec g' g) as [->|N]; auto. right; right.
+    apply mem_In in M. destruct (on_stack_ctx g w I M) as (x & c & G & Cx).
+    intros y Gy. rewrite G in Gy. inversion Gy; subst y. left; congruence.
+  - apply mem_false in M.
+    pose proof (inv_call_wrapper g legacy (resume legacy f) IH (resume_frame legacy f) g' i w M I) as J.
+    fold w0 in J. destruct (wrapper_resume legacy (resume legacy f) g' i w0) as [w1 o]. cbn [fst] in *.
+    apply inv_emit_neutral; [auto | now cbn | now cbn].
+Qed.
+
+Lemma inv_init g bodies : Inv g (init_world bodies).
+Proof.
+  split; [exact Logic.I|]. unfold rel, get, init_world. cbn.
+  rewrite nth_error_map. destruct (nth_error bodies g); cbn; auto.
+Qed.
+
+Lemma inv_run_script g res : res_inv g res -> forall script w, Inv g w -> Inv g (run_script res script w).
+Proof.
+  intros Hres. induction script as [|st script IH]; intros w I; cbn; auto.
+  apply IH. destruct st; cbn [run_dstep]; auto; apply inv_do_op; auto.
+Qed.
+
+(* C15, first clause.  For every family of bodies, every driver script (any
+   interleaving of resumptions of several generators, from arbitrary and
+   changing driver contexts, nested resumptions included) and every generator
+   g: each operation g executes sees (copy of its resumer's context at its
+   first resumption) updated by g's own earlier operations, nothing else. *)
+Theorem own_context legacy fuel bodies script g :
+  chain g cinit (hist (run_script (resume legacy fuel) script (init_world bodies))).
+Proof.
+  apply (inv_run_script g (resume legacy fuel) (inv_resume g legacy fuel) script (init_world bodies)).
+  apply inv_init.
 Qed.
